@@ -1327,6 +1327,7 @@ Proof.
     + simpl. discriminate.
     + simpl. discriminate.
   - (* AQuery *) simpl. destruct (tget n (tags st)) as [t|] eqn:Tn; [|exact H].
+    destruct (complex d && _); [exact H|].
     destruct (refs_ok n d (tags st)) eqn:RO; [|exact H].
     apply sinv_start_converter, sinv_start_tagging.
     apply (sinv_replace_inherit st n t); try assumption; simpl; [reflexivity| |].
